@@ -143,6 +143,10 @@ fn programs(env: &mc::refcond::Env, thorough: bool) -> Vec<Prog> {
     v
 }
 
+thread_local! {
+    static SIDE: std::cell::RefCell<Vec<(String, String)>> = const { std::cell::RefCell::new(Vec::new()) };
+}
+
 type Addition = ([u8; 32], [u8; 32], u64, Option<Vec<u8>>);
 
 fn additions_of(sum: &CSummary) -> Vec<Addition> {
@@ -243,7 +247,22 @@ fn check(p: &Prog, flags: ConsensusFlags, buckets: &mut BTreeMap<String, u64>) -
     // 4. SpendBundle::additions
     if let Some(spends) = &p.spends {
         let b = SpendBundle::new(spends.iter().map(GSpend::coin_spend).collect(), sig.clone());
-        let adds = b.additions().map_err(|e| ("SpendBundle::additions/error".to_string(), format!("{e:?}")))?;
+        let pair_opcode = spends.iter().any(|s| {
+            // identity / quoted puzzles: the condition list is the solution or the quoted value
+            let conds = if s.solution.is_nil() { s.puzzle.as_pair().map(|p| p.1.clone()).unwrap_or(Sx::nil()) } else { s.solution.clone() };
+            conds.unlist().0.iter().any(|c| c.as_pair().is_some_and(|(op, _)| op.as_pair().is_some()))
+        });
+        let adds = match b.additions() {
+            Ok(a) => a,
+            Err(e) if pair_opcode => {
+                // recorded finding: additions() refuses what consensus ignores; the rest of this
+                // generator's checks already passed, nothing left to compare
+                SIDE.with(|c| c.borrow_mut().push(("SpendBundle::additions/pair-opcode-rejected".to_string(), format!("{e:?}"))));
+                *buckets.entry("agree/except-additions-pair-opcode".into()).or_insert(0) += 1;
+                return Ok(true);
+            }
+            Err(e) => return Err(("SpendBundle::additions/error".to_string(), format!("{e:?}"))),
+        };
         let mut got: Vec<([u8; 32], [u8; 32], u64)> = adds.iter().map(|c| (c.parent_coin_info.to_bytes(), c.puzzle_hash.to_bytes(), c.amount)).collect();
         got.sort();
         let want: Vec<([u8; 32], [u8; 32], u64)> = want_add.iter().map(|a| (a.0, a.1, a.2)).collect();
@@ -270,7 +289,11 @@ fn run(rep: &Report) {
             for (fname, f) in flagsets {
                 n += 1;
                 let case = json!({"name": p.name, "program": hex::encode(&p.bytes), "refs": p.refs.iter().map(hex::encode).collect::<Vec<_>>(), "flags": f.bits(), "spends": p.spends.as_ref().map(|s| s.iter().map(|s| json!({"parent": hex::encode(s.parent), "amount": s.amount, "puzzle": hex::encode(s.puzzle.serialize()), "solution": hex::encode(s.solution.serialize())})).collect::<Vec<_>>())});
-                match catch(|| check(p, f, &mut b)) {
+                let res = catch(|| check(p, f, &mut b));
+                for (sig, d) in SIDE.with(|c| std::mem::take(&mut *c.borrow_mut())) {
+                    rep.violation(&format!("C09/{sig}"), case.clone(), format!("{} flags {fname}: {d}", p.name));
+                }
+                match res {
                     Ok(Ok(true)) => rep.distinct(fxhash(&p.bytes)),
                     Ok(Ok(false)) => {}
                     Ok(Err((sig, d))) => rep.violation(&format!("C09/{sig}"), case, format!("{} flags {fname}: {d}", p.name)),
